@@ -310,6 +310,9 @@ def run(ctx: Ctx) -> None:
         exp[vi] = k + 1
     ctx.selftest("trace-corruption(returned term head altered)", rej == exp, f"rej={rej} expected={exp}")
 
+    from . import c02_views
+    c02_views.run(ctx)
+
 
 def replay(rep: dict) -> int:
     w = rep["witness"]
